@@ -47,6 +47,8 @@ def decompile(routine_infos: list[Any], routine_ops: list[list[Any]], named: lis
     # the decompiler gets its own (short) share of the task's time limit: its known failure mode is non-termination
     t0 = time.time()
     prev = signal.alarm(DECOMPILE_TIMEOUT) if signal.getsignal(signal.SIGALRM) not in (signal.SIG_DFL, signal.SIG_IGN, None) else 0
+    if 0 < prev < DECOMPILE_TIMEOUT:
+        signal.alarm(prev)  # a caller with a tighter limit keeps it
     try:
         return d.convert()
     finally:
@@ -139,12 +141,56 @@ def compare_routine_sets(name: str, infos: list[Any], ops: list[list[Any]], name
         else:
             out.update({"status": "inconclusive", "what": f"routine {i}: {r.get('why')}"})
             break
+    if out["status"] == "ok" and not out["fallback"]:
+        _spec_leg(out, text, want, ga, ea, stats)
     out["queries"] = {"q1": stats.q1, "q2": stats.q2, "solver_s": stats.solver_s, "states": stats.states,
                       "transitions": stats.transitions, "k_hist": stats.k_hist}
     if out["status"] == "ok":
         out["sample"] = {"decompiled": text[:300], "routines": out["routines"], "fallback": out["fallback"],
-                         "verdict": "compile(decompile(x)) ~ x for all outcomes"}
+                         "verdict": "compile(decompile(x)) ~ x and spec-semantics(decompile(x)) ~ x for all outcomes"}
     return out
+
+
+def _spec_leg(out: dict[str, Any], text: str, want: Any, ga: Any, ea: list[Any], stats: Any) -> None:
+    """second oracle, independent of the compiler's handlers: parse the decompiled text with the real grammar, read the
+    tree into the reference AST (spec/es_reader.py), give it the reference semantics (spec/es_sem.py) and decide trace
+    equivalence with the input routines. (The SsbScript fallback text is a different language; the first leg covers it.)"""
+    from spec import es_reader, es_sem
+
+    try:
+        p2 = es_reader.read(text)
+        g2, e2 = es_sem.program_lts(p2)
+        infos2 = es_sem.routine_infos(p2)
+    except Exception as e:  # noqa
+        out.update({"status": "inconclusive", "what": f"reference reader/semantics does not cover the decompiled text: "
+                                                      f"{type(e).__name__}: {str(e)[:120]}"})
+        return
+    if infos2 != want:
+        out.update({"status": "violation", "what": f"routine table of the decompiled text differs: {infos2} != {want}",
+                    "kind": "spec-table", "witness": {"kind": "spec-table", "text": text[:1500]}})
+        return
+    for i, (a, b) in enumerate(zip(ea, e2)):
+        if a is None or b is None:
+            if (a is None) != (b is None):
+                out.update({"status": "violation", "what": f"routine {i}: empty/alias mismatch (reference reading)",
+                            "kind": "spec-alias", "witness": {"kind": "spec-alias", "text": text[:1500]}})
+                return
+            continue
+        ga.entry, g2.entry = a, b
+        out["routines"] += 1
+        r = engine_t.equivalent(ga.visible(), g2.visible(), stats, norm=norm_label)
+        if r["verdict"] == "equal":
+            out["equal"] += 1
+        elif r["verdict"] == "differ":
+            out.update({"status": "violation", "kind": "spec-trace",
+                        "what": f"routine {i}: after outcomes {r['outcomes']} the input performs {r['labels'][0]} but the "
+                                f"decompiled text, read by the language specification, performs {r['labels'][1]}",
+                        "witness": {"kind": "spec-trace", "routine": i, "outcomes": r["outcomes"], "text": text[:2500],
+                                    "input_trace": repr(r["trace_a"]), "output_trace": repr(r["trace_b"])}})
+            return
+        else:
+            out.update({"status": "inconclusive", "what": f"routine {i} (reference reading): {r.get('why')}"})
+            return
 
 
 def input_classes(infos: list[Any], ops: list[list[Any]]) -> list[str]:
